@@ -14,7 +14,9 @@ from props import c01
 PID = "C13"
 MODULES = ["FlVerif.Props.C13"]
 NAMESPACE = "C13"
-TIE_A = ["Norm.", "Hedge.", "Term."]
+TIE_A = ["Norm.", "Hedge.", "Term.", "code:fuzzylite.engine.Engine.restart", "code:fuzzylite.variable.OutputVariable.clear",
+         "code:fuzzylite.rule.RuleBlock.reload_rules", "code:fuzzylite.rule.RuleBlock.load_rules",
+         "code:fuzzylite.rule.RuleBlock.unload_rules", "code:fuzzylite.rule.Rule.load", "code:fuzzylite.rule.Rule.unload"]
 RULE = ("operation sequences (length <= 8 quick / 12 thorough) of {set inputs, process, restart, copy and switch to the copy, "
         "edit a parameter of the current engine (term height, rule weight, Linear coefficient), toggle an enabled flag - "
         "process - restore} on generated engines (General activation; Mamdani / Takagi-Sugeno with Linear terms holding an "
@@ -67,6 +69,8 @@ def mk_seq(rng, desc, length):
             ops.append(["copy"])
         elif r < 0.86:
             ops.append(["ruletext", rng.randrange(1 << 20), rng.randrange(1 << 20)])
+        elif r < 0.88:
+            ops.append(["badrule", rng.randrange(1 << 20)])
         elif r < 0.93:
             kind = rng.choice(["height", "weight", "coeff"])
             ops.append(["edit", kind, rng.randrange(1 << 20), rng.choice([0.5, 0.25, 0.75, 1.0])])
@@ -195,6 +199,40 @@ def run_impl(desc, ops):
             E["stream"].append(["restart"])
             E["inputs"] = None
             E["clean"] = True
+        elif op[0] == "badrule":
+            # a rule whose text no longer loads (unknown term), then restart: `reload_rules` raises RuntimeError after
+            # the input values were reset and before any output variable is cleared (model `Op.Session.restartR`,
+            # theorem `C13.code_restart`); the model stream continues with inputs NaN and the output states kept.
+            # The rule is then restored and loaded again - no restart, so what the outputs kept shows in later steps.
+            d = E["d"]
+            cands = [(bi, ri) for bi, b in enumerate(d["blocks"]) for ri, _ in enumerate(b["rules"])]
+            bi, ri = cands[op[1] % len(cands)]
+            rule = E["e"].rule_blocks[bi].rules[ri]
+            good = rule.consequent.text
+            before = [(np.array(ov.value, dtype=float).tolist(), float(ov.previous_value)) for ov in E["e"].output_variables]
+            c0 = d["blocks"][bi]["rules"][ri]["concls"][0]
+            rule.consequent.text = " ".join([c0["var"], "is"] + c0["hedges"] + ["no_such_term"])
+            raised = None
+            try:
+                E["e"].restart()
+            except Exception as ex:  # noqa: BLE001
+                raised = type(ex).__name__
+            after = [(np.array(ov.value, dtype=float).tolist(), float(ov.previous_value)) for ov in E["e"].output_variables]
+            ins = [float(np.take(iv.value, -1)) for iv in E["e"].input_variables]
+            fails = E.setdefault("restart_fail", [])
+            if raised != "RuntimeError":
+                fails.append(f"restart() of an engine with a rule that does not load raised {raised}, expected RuntimeError")
+            if not all(math.isnan(v) for v in ins):
+                fails.append(f"restart() that raised left the input values {ins}, expected NaN")
+            if repr(before) != repr(after):
+                fails.append(f"restart() that raised changed the output variables: (value, previous) {before} -> {after}")
+            if rule.is_loaded():
+                fails.append("a rule whose load failed reports is_loaded()")
+            rule.consequent.text = good
+            rule.load(E["e"])
+            n_in = len(E["e"].input_variables)
+            E["stream"].append(["set"] + [math.nan] * n_in)
+            E["inputs"] = [math.nan] * n_in
         elif op[0] == "edit":
             if apply_edit(E["e"], E["d"], op):
                 E["stream"].append(["reconfig", G.engine_sx(E["d"])])
@@ -249,6 +287,8 @@ def oracle(case):
     desc, ops = case["engine"], case["ops"]
     engines = run_impl(desc, ops)
     for k, E in enumerate(engines):
+        for msg in E.get("restart_fail", []):
+            return False, f"engine object {k}: {msg}"
         for got, want in E["fresh_pairs"]:
             if len(want) != len(got) or not all(c01.feq(a, b, 1e-12) if not isinstance(a, str) else a == b for a, b in zip(got, want)):
                 return False, (f"engine object {k}: a process step (after restart(), or with lock-previous off) gives {got}, a "
